@@ -116,6 +116,8 @@ def to_harness_graph(c):
              "nodes %d %s" % (len(c["nodes"]), " ".join(str(x) for x in c["nodes"])),
              "edges %d %s" % (len(c["edges"]),
                               " ".join("%d %d %s" % (u, v, h_wdiv(w, wdiv)) for u, v, w in c["edges"]))]
+    if c.get("readd"):
+        lines.append("readd %s" % " ".join(str(x) for x in c["readd"]))
     return lines
 
 
@@ -219,6 +221,9 @@ def graph_from_json(j):
         c["nomodel"] = True
     if j.get("wscale"):
         c["wscale"] = j["wscale"]
+    if j.get("readd"):
+        c["readd"] = list(j["readd"])
+        c["nomodel"] = True
     return c
 
 
